@@ -533,8 +533,9 @@ class DB:
 
     def record(self, name):
         for t in self.tus.values():
-            if name in t.records:
-                return t.records[name]
+            for nm in (name, "_" + name, name.lstrip("_")):
+                if nm in t.records:
+                    return t.records[nm]
         raise AnalysisBroken("record %s not found" % name)
 
     def macro(self, name):
